@@ -40,10 +40,14 @@ type c11Spec struct {
 	BadStore bool `json:"bad_store,omitempty"` // an EventStore whose SessionClosed reports an error
 	// AppendFailAt > 0 (with BadStore): the k-th Append of the store fails once (a remote store with a hiccup); the
 	// message is still delivered and nothing about the session table changes
-	AppendFailAt int     `json:"append_fail_at,omitempty"`
-	Stateless    bool    `json:"stateless"`
-	TimeoutMs    int     `json:"timeout_ms"`
-	Ops          []c11Op `json:"ops"`
+	AppendFailAt int `json:"append_fail_at,omitempty"`
+	// KeepAliveMs > 0: the server pings its sessions at this interval (ServerOptions.KeepAlive). The raw client keeps
+	// no standalone stream open and answers no ping, so keep-alive gives every session up between one interval and
+	// one and a half after its creation (the instant in between is not decided); from then on its id is dead.
+	KeepAliveMs int     `json:"keepalive_ms,omitempty"`
+	Stateless   bool    `json:"stateless"`
+	TimeoutMs   int     `json:"timeout_ms"`
+	Ops         []c11Op `json:"ops"`
 }
 
 func genC11(r *vh.Rand) c11Spec {
@@ -56,11 +60,15 @@ func genC11(r *vh.Rand) c11Spec {
 		s.AppendFailAt = r.Range(1, 8)
 	}
 	// "svc": a credential the verifier accepts without naming a user (a service token): it is nobody's owner
-	users := []string{"", "alice", "bob", "svc"}
+	// "ALICE" and "alice" are two users
+	if !s.Stateless && r.Chance(1, 6) {
+		s.KeepAliveMs = []int{s.TimeoutMs / 2, 2 * s.TimeoutMs, 5 * s.TimeoutMs}[r.Intn(3)]
+	}
+	users := []string{"", "alice", "bob", "svc", "ALICE"}
 	nsess := 0
 	T := s.TimeoutMs
 	for i, n := 0, r.Range(4, 14); i < n; i++ {
-		op := c11Op{User: users[r.Intn(4)], Sess: -1}
+		op := c11Op{User: users[r.Intn(5)], Sess: -1}
 		if nsess > 0 && !r.Chance(1, 8) {
 			op.Sess = r.Intn(nsess)
 		}
@@ -92,6 +100,15 @@ func genC11(r *vh.Rand) c11Spec {
 			op.Kind, op.Sess = "post-nosid", -2
 		default:
 			op.Kind, op.Ms = "advance", []int{1, T / 2, T - 1, T + 1, T - 1, T + 1, 3 * T}[r.Intn(7)]
+		}
+		if s.KeepAliveMs > 0 {
+			// (keep-alive's Close waits for running handlers like any other: keep the requests of these cases short)
+			if op.Kind == "post-slow" {
+				op.Kind, op.Ms, op.Bg = "post", 0, false
+			}
+			if op.Kind == "init" {
+				op.Ms = 0
+			}
 		}
 		s.Ops = append(s.Ops, op)
 		if op.Kind == "post-slow" && op.Bg && op.Sess >= 0 && r.Chance(1, 3) {
@@ -125,7 +142,9 @@ type c11Model struct {
 	alive    bool
 	lastEnd  time.Duration // end of the last POST (virtual since start)
 	inflight int
-	born     bool // a session object existed at some point
+	born     bool          // a session object existed at some point
+	bornLo   time.Duration // the creating POST was sent / had returned (keep-alive runs from somewhere in between)
+	bornHi   time.Duration
 }
 
 func runC11(c *vh.Case, spec c11Spec) {
@@ -137,7 +156,12 @@ func runC11(c *vh.Case, spec c11Spec) {
 	now := func() time.Duration { return time.Since(start) }
 	var handlerRuns sync.Map   // nonce -> started
 	var tokenMismatch sync.Map // nonce -> nonce recorded in the token info the handler saw
-	server := mcp.NewServer(&mcp.Implementation{Name: "s", Version: "1"}, nil)
+	var sopts *mcp.ServerOptions
+	K := ms(spec.KeepAliveMs)
+	if K > 0 {
+		sopts = &mcp.ServerOptions{KeepAlive: K}
+	}
+	server := mcp.NewServer(&mcp.Implementation{Name: "s", Version: "1"}, sopts)
 	server.AddTool(&mcp.Tool{Name: "sleep", InputSchema: json.RawMessage(`{"type":"object"}`)}, func(ctx context.Context, req *mcp.CallToolRequest) (*mcp.CallToolResult, error) {
 		var a struct {
 			Ms    int
@@ -217,6 +241,9 @@ func runC11(c *vh.Case, spec c11Spec) {
 			if m.alive && m.inflight == 0 && now() > m.lastEnd+T {
 				m.alive = false
 			}
+			if m.alive && K > 0 && now() > m.bornHi+K+K/2+2*time.Millisecond {
+				m.alive = false // given up by keep-alive
+			}
 		}
 	}
 	liveCount := func() int {
@@ -230,6 +257,9 @@ func runC11(c *vh.Case, spec c11Spec) {
 	}
 	nearDeadline := func(m *c11Model) bool {
 		d := now() - (m.lastEnd + T)
+		if K > 0 && m.born && now() > m.bornLo+K-2*time.Millisecond && now() <= m.bornHi+K+K/2+2*time.Millisecond {
+			return true // somewhere in here keep-alive gives the session up
+		}
 		return m.inflight == 0 && d > -2*time.Millisecond && d < 2*time.Millisecond
 	}
 	serverSessions := func() []*mcp.ServerSession {
@@ -283,7 +313,16 @@ func runC11(c *vh.Case, spec c11Spec) {
 				foreign++
 			case "get", "delete":
 				m := map[string]string{"get": "GET", "delete": "DELETE"}[op.Kind]
-				st, _, _, _ := ip.Do(ctx, m, "http://example.test/mcp", hdrFor(op.User, "bogus-session-id"), nil)
+				h := hdrFor(op.User, "bogus-session-id")
+				// whatever the request says it accepts: a client's GET asks for an event stream only, a DELETE for nothing
+				switch (i + len(spec.Ops)) % 3 {
+				case 0:
+					h["Accept"] = "text/event-stream"
+				case 1:
+					delete(h, "Accept")
+				}
+				delete(h, "Content-Type")
+				st, _, _, _ := ip.Do(ctx, m, "http://example.test/mcp", h, nil)
 				expectStatus(i, op, st, 405)
 				terminatedThenUsed++
 			case "advance":
@@ -317,8 +356,9 @@ func runC11(c *vh.Case, spec c11Spec) {
 				body = `{"jsonrpc":"2.0","id":1,"method":"initialize","params":null}`
 			}
 			before := len(serverSessions())
+			sentAt := now()
 			st, rh, _, _ := ip.Do(ctx, "POST", "http://example.test/mcp", hdrFor(op.User, ""), []byte(body))
-			nm := &c11Model{id: rh.Get("Mcp-Session-Id"), owner: c11UID(op.User), lastEnd: now(), born: true}
+			nm := &c11Model{id: rh.Get("Mcp-Session-Id"), owner: c11UID(op.User), lastEnd: now(), born: true, bornLo: sentAt, bornHi: now()}
 			if op.Kind == "init" {
 				if !expectStatus(i, op, st, 200) {
 					break
